@@ -33,4 +33,6 @@ UNITS = {
                                returns=["key", "mask"], count=4)),
         ]),
     "GenTableEnums": dict(props=["C04", "C01", "C10"], dumper="dump_c04.py"),
+    # shape of the front ends (default methods, _identity first and its comparison, RoutingTableEntry.__new__)
+    "GenTableFront": dict(props=["C04"], dumper="dump_c04f.py"),
 }
